@@ -123,6 +123,44 @@ func (m *Monitor) Step(now time.Time, o Obs) string {
 	return ""
 }
 
+// Unspecified advances the monitor over a request that was neither rejected by the breaker nor
+// proxied: the balancer itself answered "no healthy backend" (every backend ejected by passive
+// health checking). No backend was contacted and no proxied request failed, so the statement says
+// nothing about what such a request is to the breaker (no trial, a successful trial, ...). The
+// monitor therefore demands nothing of it and follows the published state in the lenient
+// direction only: it never makes a later demand stronger than without the event.
+func (m *Monitor) Unspecified(now time.Time, after int) {
+	c := m.cfg
+	switch m.state {
+	case mClosed:
+		if after == 1 {
+			m.state, m.openedAt = mOpen, now
+			m.Opened++
+		}
+	case mOpen:
+		if now.Sub(m.openedAt) <= c.Timeout {
+			return
+		}
+		switch after {
+		case 2: // it was admitted as a trial and taken as a success (at most): trials are not over-counted
+			m.state, m.trials, m.succ = mHalf, 0, 1
+		case 0:
+			m.state, m.run, m.total, m.weakPeriod = mClosed, 0, 0, false
+			m.Closed++
+		}
+	case mHalf:
+		m.succ++
+		switch after {
+		case 0:
+			m.state, m.run, m.total, m.weakPeriod = mClosed, 0, 0, false
+			m.Closed++
+		case 1:
+			m.state, m.openedAt = mOpen, now
+			m.Opened++
+		}
+	}
+}
+
 func (m *Monitor) trial(now time.Time, o Obs) string {
 	c := m.cfg
 	m.trials++
